@@ -39,7 +39,8 @@ static INITIALISED: AtomicBool = AtomicBool::new(false);
 pub fn generate(rng: &mut Rng, tier: Tier) -> Scn {
     let init_path = rng.weighted(&[4, 2, 1, 1]) as u8;
     let nconf = rng.range(2, 5) as u32;
-    let mut configs: Vec<CfgSpec> = (0..nconf).map(|v| l::gen_cfg(rng, nconf, "C02", v)).collect();
+    let scale = rng.chance(1, 20);
+    let mut configs: Vec<CfgSpec> = (0..nconf).map(|v| if scale { l::gen_cfg_scale(rng, "C02") } else { l::gen_cfg(rng, nconf, "C02", v) }).collect();
     if init_path >= 2 {
         // file formats carry no scripted filters
         for a in &mut configs[0].appenders {
@@ -50,6 +51,7 @@ pub fn generate(rng: &mut Rng, tier: Tier) -> Scn {
             }
         }
     }
+    let pool = l::target_pool(&configs);
     let nh = if tier == Tier::Thorough { rng.range(2, 12) } else { rng.range(1, 6) } as usize;
     let mut histories = vec![];
     for _ in 0..nh {
@@ -62,7 +64,7 @@ pub fn generate(rng: &mut Rng, tier: Tier) -> Scn {
             if init_path < 2 && rng.chance(1, 2) {
                 t0.push(LOp::SetConfig { v: rng.below(nconf as u64) as u32 });
             }
-            t0.push(LOp::Log { n: i as u16, target: rng.pick(&l::TARGETS).to_string(), level: rng.range(1, 5) as u8 });
+            t0.push(LOp::Log { n: i as u16, target: rng.pick(&pool).to_string(), level: rng.range(1, 5) as u8 });
         }
         if nlog == 0 && rng.chance(1, 4) {
             // single-threaded history: steps whose effect on the facade is judged right away
@@ -77,7 +79,7 @@ pub fn generate(rng: &mut Rng, tier: Tier) -> Scn {
         threads.push(t0);
         for _ in 0..nlog {
             let k = rng.range(1, 4);
-            threads.push((0..k).map(|i| LOp::Log { n: i as u16, target: rng.pick(&l::TARGETS).to_string(), level: rng.range(1, 5) as u8 }).collect());
+            threads.push((0..k).map(|i| LOp::Log { n: i as u16, target: rng.pick(&pool).to_string(), level: rng.range(1, 5) as u8 }).collect());
         }
         histories.push(History { threads });
     }
@@ -141,7 +143,7 @@ fn check_levels(sh: &Arc<LShared>, cfg: &CfgSpec, v: u32, when: &str) {
         return;
     }
     // C02-I2
-    for t in l::TARGETS.iter() {
+    for t in l::target_pool(&sh.scn.configs).iter() {
         for lvl in 1..=5u8 {
             let en = log::logger().enabled(&log::Metadata::builder().level(l::level(lvl)).target(t).build());
             let model = lvl <= l::threshold(cfg, t);
